@@ -20,6 +20,7 @@
     x eswap v<a> v<b>          a.elements().swap(b.elements())
     x set <addr> <val>
     x algo …                   C03: the oracle is the reference computed in the harness; the model echoes `algo ok`
+    x tr <name> p1 p2 p3 n v…  C03: the transcribed libstdc++ loop (MultiProofs/AlgoProgs.lean) on independent values — Driver/AlgoTr.lean
     q mem <lo> <hi>            cells [lo, hi)
     q rest                     nothing outside the windows of this program's roots (± 8 guard cells) may have changed
     q eq|ne|lt|le|gt|ge <F><a> <F><b>
@@ -27,6 +28,7 @@
 import MultiModel
 import MultiModel.Store
 import Driver.Proto
+import Driver.AlgoTr
 import Std.Data.HashMap
 
 namespace Driver
@@ -150,6 +152,10 @@ def sstep (st : SSt) (line : String) : SSt × Option String :=
       ({ st' with segs := (v.base - 8, v.base + n + 8) :: st'.segs }, out)
     | none => (st', out)
   | "x" :: "algo" :: _ => (st, some "algo ok")
+  | "x" :: "tr" :: name :: args =>
+    match args.mapM String.toInt? with
+    | some ints => (st, some (trCmd name ints))
+    | none => (st, some "bad-op")
   | ["x", "assign", d, s] =>
     match parseOperand d, parseOperand s with
     | some (fd, rd), some (fs, rs) => okOr st (assignCmd st fd rd fs rs)
